@@ -152,5 +152,8 @@ func (Pegnet) SelectSnapshotBalances(tx QueryAble) ([]BalancesPair, error) {
 
 		res = append(res, bp)
 	}
+	if err := rows.Err(); err != nil {
+		return nil, err
+	}
 	return res, nil
 }
